@@ -142,15 +142,21 @@ def _filler(rng, kind, n):
         return bytes(out[:n])
     return rng.randbytes(n)
 
-def _distbound(rng, n):
+def distbound_at_start(rng, D=None):
+    """the far segment W on the very first byte of the input, repeated at distance D (default: around LZ4_DISTANCE_MAX)"""
+    return _distbound(rng, 0, at_start=True, dist=D)
+
+def _distbound(rng, n, at_start=None, dist=None):
     """a segment W repeated at a distance exactly around LZ4_DISTANCE_MAX (65533..65540, 2^17), with little or much
     hash-table traffic in between (zero/periodic/text/random filler), optionally preceded by a short (4..6 byte)
     NEARER match that starts 1..2 bytes earlier, so that 'a better match at ip+1' paths see the far candidate"""
     # W at the very first byte of the input in a third of the cases: the candidate then sits exactly on the lowest index
     # of the window (the "withinStartDistance" decisions of the HC match finders, seeded C01_5)
-    out = bytearray(rng.randbytes(rng.randrange(16, 3000))) if rng.random() < 0.65 else bytearray()
-    for _ in range(rng.choice([1, 1, 2])):
-        D = rng.choice([65533, 65534, 65535, 65535, 65536, 65536, 65536, 65537, 65538, 65540, 131071, 131072])
+    if at_start is None:
+        at_start = rng.random() >= 0.65
+    out = bytearray() if at_start else bytearray(rng.randbytes(rng.randrange(16, 3000)))
+    for _ in range(rng.choice([1, 1, 2]) if dist is None else 1):
+        D = dist if dist is not None else rng.choice([65533, 65534, 65535, 65535, 65536, 65536, 65536, 65537, 65538, 65540, 131071, 131072])
         L = rng.choice([8, 9, 12, 16, 20, 40, 72, 100, 1000])
         W = rng.randbytes(L)
         k = rng.choice([0, 1, 1, 1, 2]); sl = rng.choice([4, 4, 5, 6])
